@@ -195,8 +195,12 @@ class SymExec(object):
         if isinstance(base, (list, tuple)) and isinstance(key, int):
             return base[key]
         if isinstance(base, dict):
-            if key in base:
-                return base[key]
+            k = key if isinstance(key, (str, int)) else self.text(key)
+            if k in base:
+                return base[k]
+            if "__default__" in base:
+                return base["__default__"]
+            raise ExtractError("key %r not in abstract dict" % (k,))
         if isinstance(base, Opaque):
             return Opaque("%s[%s]" % (base.text, self.text(key)), base, key)
         if isinstance(base, sp.Basic):
@@ -396,6 +400,12 @@ class SymExec(object):
         if isinstance(recv, list) and meth == "append":
             recv.append(args[0])
             return None
+        if isinstance(recv, list) and meth == "insert" and isinstance(args[0], int):
+            recv.insert(args[0], args[1])
+            return None
+        if isinstance(recv, list) and meth == "extend" and isinstance(args[0], (list, tuple)):
+            recv.extend(args[0])
+            return None
         if isinstance(recv, dict) and meth == "get":
             return recv.get(args[0], args[1] if len(args) > 1 else None)
         last = name.split(".")[-1] if name else None
@@ -503,13 +513,12 @@ class SymExec(object):
         return None
 
     def cond_text(self, test, st):
-        v = self.ev(test, st)
         neg = False
-        t = self.text(v)
-        while t.startswith("not "):
+        while isinstance(test, ast.UnaryOp) and isinstance(test.op, ast.Not):
             neg = not neg
-            t = t[4:]
-        return t, neg
+            test = test.operand
+        v = self.ev(test, st)
+        return self.text(v), neg
 
     def block(self, stmts, states):
         for s in stmts:
